@@ -1652,6 +1652,33 @@ fn exec_pfloat<T: SimFloat>(ty: FloatTy, text: &[u8], expect: Option<u64>, lite:
             ),
         }
     }
+    if !plain {
+        // whatever else a non-numeric input is, it is not a special value unless it spells one in ASCII letters
+        let spells = {
+            let t = match text.first() {
+                Some(b'+') | Some(b'-') => &text[1..],
+                _ => text,
+            };
+            t.eq_ignore_ascii_case(b"nan") || t.eq_ignore_ascii_case(b"inf") || t.eq_ignore_ascii_case(b"infinity")
+        };
+        if let Ok(v) = &c {
+            let b = v.to_b();
+            if !spells && (ty.is_nan(b) || (ty.is_inf(b) && !text.iter().any(|c| c.is_ascii_digit()))) {
+                out.fail("C15", format!("input that spells no special string was accepted as {}", cs));
+            }
+        }
+        if let Ok((v, n)) = &p {
+            let b = v.to_b();
+            let t = match text.first() {
+                Some(b'+') | Some(b'-') => &text[1..],
+                _ => text,
+            };
+            let prefix_spells = [&b"nan"[..], b"inf", b"infinity"].iter().any(|s| t.len() >= s.len() && t[..s.len()].eq_ignore_ascii_case(s));
+            if *n > 0 && !prefix_spells && (ty.is_nan(b) || (ty.is_inf(b) && !text[..*n].iter().any(|c| c.is_ascii_digit()))) {
+                out.fail("C15", format!("partial parse accepted a prefix that spells no special string as {}", ps));
+            }
+        }
+    }
     // C11
     match (&c, &p) {
         (Ok(v), Ok((w, n))) if canon_nan(ty, v.to_b()) == canon_nan(ty, w.to_b()) && *n == text.len() => {},
